@@ -36,9 +36,20 @@ def do_call(e, name, adf, ra, bdd, n):
         y = e.call('obdd::Bdd::restrict', [rb, e.copyval(x), T(0), True])
         z = e.call('obdd::Bdd::or', [rb, e.copyval(y), e.copyval(a0)])
         e.call('obdd::Bdd::restrict', [rb, e.copyval(z), T(n - 1), False])
+        e.call('obdd::Bdd::imp', [rb, e.copyval(a0), e.copyval(a1)])
+        e.call('obdd::Bdd::iff', [rb, e.copyval(a1), e.copyval(x)])
         return None
     res, side = semjobs.run_proc(e, name, ra, adf)
     return [A.classes(e, v) for v in res]
+
+
+def ite_probe(i, t, el):
+    """the public operation that looks up the memo entry (i,t,e)"""
+    if (t, el) == (0, 1): return {'op': 'not', 'a': i}
+    if el == 0: return {'op': 'and', 'a': i, 'b': t}
+    if t == 1: return {'op': 'or', 'a': i, 'b': el}
+    if el == 1: return {'op': 'imp', 'a': i, 'b': t}
+    return {'op': 'iff_or_xor', 'a': i, 'b': t, 'c': el}
 
 
 def audit_memo(e, bdd, n, tabs_of_handle):
@@ -51,33 +62,34 @@ def audit_memo(e, bdd, n, tabs_of_handle):
     ite = bdd.f[e.field('Bdd', 'ite_cache')]
     for key_, val in ite.e:
         i, t, el = (hv(x) for x in key_.f); r = hv(val[0])
+        if i <= 1 or t == el or (t, el) == (1, 0): continue      # if_then_else answers these before it consults the memo table: entry unreachable
         ti, tt, te, tr = tab(i), tab(t), tab(el), tab(r)
         c = z3.Or(*[zb(tr[a]) != z3.If(zb(ti[a]), zb(tt[a]), zb(te[a])) for a in range(1 << n)])
-        if sat_model(e, c) is not None: probs.append('ite_cache[(%d,%d,%d)] = %d is not if-then-else of its operands' % (i, t, el, r))
+        if sat_model(e, c) is not None: probs.append(('ite_cache[(%d,%d,%d)] = %d is not if-then-else of its operands' % (i, t, el, r), ite_probe(i, t, el)))
     rc = bdd.f[e.field('Bdd', 'restrict_cache')]
     for key_, val in rc.e:
         t = hv(key_.f[0]); v = hv(key_.f[1]); b = key_.f[2]; b = e.branch(b) if is_sym(b) else b
         r = hv(val[0]); tt, tr = tab(t), tab(r)
         want = [tt[(a | (1 << v)) if b else (a & ~(1 << v))] for a in range(1 << n)] if v < n else tt
         c = z3.Or(*[zb(x) != zb(y) for x, y in zip(tr, want)])
-        if sat_model(e, c) is not None: probs.append('restrict_cache[(%d,%d,%s)] = %d is not the cofactor' % (t, v, b, r))
+        if sat_model(e, c) is not None: probs.append(('restrict_cache[(%d,%d,%s)] = %d is not the cofactor' % (t, v, b, r), {'op': 'restrict', 'a': t, 'var': v, 'val': bool(b)}))
     if 'var_deps' in e.structs['Bdd']:
         vd = bdd.f[e.field('Bdd', 'var_deps')]
-        if len(vd.items) != len(nodes): probs.append('var_deps has %d entries for %d nodes' % (len(vd.items), len(nodes)))
+        if len(vd.items) != len(nodes): probs.append(('var_deps has %d entries for %d nodes' % (len(vd.items), len(nodes)), {'op': 'deps', 'a': len(nodes) - 1}))
         for i, s in enumerate(vd.items[:len(nodes)]):
             got = set(hv(x) for x in s.e); tt = tab(i)
             conds = [(z3.Not(depends(tt, v, n)) if v in got else depends(tt, v, n)) for v in range(n)]
-            if any(v >= n for v in got) or sat_model(e, z3.Or(*conds)) is not None: probs.append('var_deps[%d] = %s is not the support' % (i, sorted(got)))
+            if any(v >= n for v in got) or sat_model(e, z3.Or(*conds)) is not None: probs.append(('var_deps[%d] = %s is not the support' % (i, sorted(got)), {'op': 'deps', 'a': i}))
     cc = bdd.f[e.field('Bdd', 'count_cache')].c[0]
     feats = e.features
     for key_, val in cc.e:
         t = hv(key_); (cm, mo), (pc0, pc1), d = mc(val[0].f[0]), mc(val[0].f[1]), val[0].f[2]
         wp = node_walk(e, nodes, t)
-        if (pc0, pc1, d) != wp: probs.append('count_cache[%d] paths/depth = %s, recomputed %s' % (t, (pc0, pc1, d), wp))
+        if (pc0, pc1, d) != wp: probs.append(('count_cache[%d] paths/depth = %s, recomputed %s' % (t, (pc0, pc1, d), wp), {'op': 'counts', 'a': t}))
         if 'adhoccountmodels' in feats or 'adhoccounting' not in feats:
             tt = tab(t); sat = z3.Sum([z3.If(zb(b), 1, 0) for b in tt])
             if sat_model(e, z3.Or(mo * (1 << n) != sat * (cm + mo), z3.BoolVal(cm + mo != (1 << wp[2])))) is not None:
-                probs.append('count_cache[%d] model counts (%s,%s) wrong' % (t, cm, mo))
+                probs.append(('count_cache[%d] model counts (%s,%s) wrong' % (t, cm, mo), {'op': 'counts', 'a': t}))
     return probs
 
 
@@ -113,8 +125,8 @@ def hist_job(e, p):
     def tabs_of_handle(h):
         if h not in memo: memo[h] = table(e, nodes, h, n)
         return memo[h]
-    for pr in audit_memo(e, bdd, n, tabs_of_handle):
-        m = sat_model(e, True); report(e, 'memo-corrupt', what=pr, case=case(m))
+    for pr, probe in audit_memo(e, bdd, n, tabs_of_handle):
+        m = sat_model(e, True); report(e, 'memo-corrupt', what=pr, case=case(m), probe=probe)
     # the same query on a freshly built object
     if p.get('hash_perm'): e.hooks['hash_perm'] = False
     adf2, ra2, bdd2 = A.make_adf(e, tabs, n)
@@ -142,9 +154,11 @@ def replay(ctx, v):
     probs = judge(out)
     if probs: return 'reproduced', {'native_output': out, 'problems': probs}
     if v['kind'] == 'memo-corrupt':
-        # a corrupt memo entry is latent state: try to surface it through follow-up queries on the same object
+        # a corrupt memo entry is latent state: surface it natively through the public operation that consults exactly this entry
+        out = ctx.native().call(native_cmd(dict(v['case'], probe=v.get('probe'))), timeout=30)
+        if out.get('probe_wrong'): return 'reproduced', {'native_output': out, 'problems': ['after the history, %s answers wrongly: %s' % (v.get('probe'), out.get('probe_detail'))]}
         for fin in FINALS:
-            out = ctx.native().call(native_cmd(dict(v['case'], final=fin, probe=True)), timeout=30)
+            out = ctx.native().call(native_cmd(dict(v['case'], final=fin)), timeout=30)
             probs = judge(out)
             if probs: return 'reproduced', {'native_output': out, 'problems': probs, 'surfaced_by': fin}
     return 'not-reproduced', {'native_output': out}
